@@ -518,7 +518,7 @@ fn cli_argv(rep: &Report) {
                 if seq.len() >= maxlen.max(3) && ei == 0 {
                     continue; // the longest vectors under the populated environment only
                 }
-                let cmd = Cmd { args: seq.iter().map(|&i| vocab[i].clone()).collect(), env: env.clone(), stdin: proc::StdinSpec::Null, stdout_file: None, stdout_closed_pipe: false, stdin_path: None, fsize_limit: None, pty: None, stdin_splits: vec![], stdout_nonblock_slow: None, env_bytes: vec![], stdout_reader_leaves_after: None };
+                let cmd = Cmd { args: seq.iter().map(|&i| vocab[i].clone()).collect(), env: env.clone(), stdin: proc::StdinSpec::Null, stdout_file: None, stdout_closed_pipe: false, stdin_path: None, fsize_limit: None, pty: None, stdin_splits: vec![], stdout_nonblock_slow: None, env_bytes: vec![], stdout_reader_leaves_after: None, stdin_nonblock: false, stdin_socket_reset: None };
                 let out = proc::run(&cmd, &sc.0);
                 count.fetch_add(1, Ordering::Relaxed);
                 completed_len.lock().unwrap()[seq.len()] += 1;
@@ -762,7 +762,7 @@ fn cli_option_junk(rep: &Report) {
         sc.write("kr.txt", kr.as_bytes());
         sc.write("plain.bin", &p);
         sc.write("ct.ktl", &ct);
-        let cmd = Cmd { args: args.clone(), env: vec![("KESTREL_PASSWORD".into(), "alicepw".into()), ("KESTREL_NEW_PASSWORD".into(), "x".into())], stdin: proc::StdinSpec::Bytes(b"newname\n".to_vec()), stdout_file: None, stdout_closed_pipe: false, stdin_path: None, fsize_limit: None, pty: None, stdin_splits: vec![], stdout_nonblock_slow: None, env_bytes: vec![], stdout_reader_leaves_after: None };
+        let cmd = Cmd { args: args.clone(), env: vec![("KESTREL_PASSWORD".into(), "alicepw".into()), ("KESTREL_NEW_PASSWORD".into(), "x".into())], stdin: proc::StdinSpec::Bytes(b"newname\n".to_vec()), stdout_file: None, stdout_closed_pipe: false, stdin_path: None, fsize_limit: None, pty: None, stdin_splits: vec![], stdout_nonblock_slow: None, env_bytes: vec![], stdout_reader_leaves_after: None, stdin_nonblock: false, stdin_socket_reset: None };
         let out = proc::run(&cmd, &sc.0);
         rep.nontrivial(&args.concat());
         if let Err(e) = out.well_behaved() {
